@@ -34,6 +34,8 @@ def main():
     out = []
     for d in sorted(glob.glob(os.path.join(HERE, 'seeded', '*'))):
         name = os.path.basename(d)
+        if name.startswith('_'):
+            continue
         if a.only and name not in a.only.split(','):
             continue
         meta = json.load(open(os.path.join(d, 'meta.json')))
